@@ -9,7 +9,77 @@ namespace Malt.Analysis
 open Malt.Py Malt.Spec
 
 @[simp] theorem Eff.exported_false_read' (d : Eff) : (d.exported false).read = d.read := rfl
-@[simp] theorem Eff.exported_true_read (d : Eff) : (d.exported true).read = d.read.diff d.bound := rfl
+@[simp] theorem Eff.exported_true_read (d : Eff) :
+    (d.exported true).read = d.read.diff ((d.bound.diff d.nonlocals).diff d.globals) := rfl
+
+@[simp] theorem effE_globals (fns : List FnCtx) (aug anno : Bool) (e : Expr) : (effE fns aug anno e).globals = [] :=
+  (effE_decls e fns aug anno).1
+@[simp] theorem effE_nonlocals (fns : List FnCtx) (aug anno : Bool) (e : Expr) : (effE fns aug anno e).nonlocals = [] :=
+  (effE_decls e fns aug anno).2
+@[simp] theorem effEs_globals (fns : List FnCtx) (aug anno : Bool) (es : List Expr) : (effEs fns aug anno es).globals = [] :=
+  (effEs_decls es fns aug anno).1
+@[simp] theorem effEs_nonlocals (fns : List FnCtx) (aug anno : Bool) (es : List Expr) : (effEs fns aug anno es).nonlocals = [] :=
+  (effEs_decls es fns aug anno).2
+
+/-- What a block declares `global` / `nonlocal` is also in its `read` set (`visit_Global`, `visit_Nonlocal`). -/
+structure DeclRead (d : Eff) : Prop where
+  sub : ∀ q, (q ∈ d.nonlocals ∨ q ∈ d.globals) → q ∈ d.read
+
+theorem DeclRead.append {a b : Eff} (ha : DeclRead a) (hb : DeclRead b) : DeclRead (a ++ b) := by
+  refine ⟨fun q hq => ?_⟩
+  have := ha.sub q; have := hb.sub q
+  simp only [Eff.append_nonlocals, Eff.append_globals, Eff.append_read, List.mem_append] at hq ⊢
+  grind
+theorem DeclRead.exp {a : Eff} (ha : DeclRead a) : DeclRead (a.exported false) := ⟨ha.sub⟩
+theorem DeclRead.iso (a : Eff) : DeclRead (a.exported true) := ⟨fun q hq => by simp at hq⟩
+theorem DeclRead.ofE (fns : List FnCtx) (aug anno : Bool) (e : Expr) : DeclRead (effE fns aug anno e) :=
+  ⟨fun q hq => by simp at hq⟩
+theorem DeclRead.ofEs (fns : List FnCtx) (aug anno : Bool) (es : List Expr) : DeclRead (effEs fns aug anno es) :=
+  ⟨fun q hq => by simp at hq⟩
+theorem DeclRead.empty : DeclRead {} := ⟨fun q hq => by simp at hq⟩
+
+mutual
+theorem effS_declRead : (s : Stmt) → (fns : List FnCtx) → DeclRead (effS fns s)
+  | .functionDef i name args body decos returns _, fns => by
+      cases args <;> simp only [effS] <;> first | exact DeclRead.empty | exact ⟨fun q hq => by simp at hq⟩
+  | .classDef i name bases kws body decos, fns => by
+      simp only [effS]
+      exact ⟨fun q hq => by simp at hq⟩
+  | .ret _ v, fns => by simp only [effS]; exact (DeclRead.ofEs ..).exp
+  | .delete _ ts, fns => by simp only [effS]; exact (DeclRead.ofEs ..).exp
+  | .assign _ ts v, fns => by simp only [effS]; exact ((DeclRead.ofEs ..).append (DeclRead.ofE ..)).exp
+  | .augAssign _ t _ v, fns => by simp only [effS]; exact ((DeclRead.ofE ..).append (DeclRead.ofE ..)).exp
+  | .annAssign _ t an v _, fns => by simp only [effS]; exact (((DeclRead.ofE ..).append (DeclRead.ofEs ..)).append (DeclRead.ofE ..)).exp
+  | .for_ _ t it body orelse _ _, fns => by
+      simp only [effS]
+      exact ((((DeclRead.ofE ..).append (DeclRead.ofE ..)).exp).append (DeclRead.ofE ..).exp).append
+        ((effSs_declRead body fns).exp.append (effSs_declRead orelse fns).exp)
+  | .while_ _ t body orelse, fns => by
+      simp only [effS]
+      exact (DeclRead.ofE ..).exp.append ((effSs_declRead body fns).exp.append (effSs_declRead orelse fns).exp)
+  | .if_ _ t body orelse, fns => by
+      simp only [effS]
+      exact (DeclRead.ofE ..).exp.append ((effSs_declRead body fns).exp.append (effSs_declRead orelse fns).exp)
+  | .with_ _ items body _, fns => by simp only [effS]; exact ((DeclRead.ofEs ..).append (effSs_declRead body fns)).exp
+  | .raise _ e c, fns => by simp only [effS]; exact ((DeclRead.ofEs ..).append (DeclRead.ofEs ..)).exp
+  | .try_ _ b h o f, fns => by
+      simp only [effS]
+      exact (((effSs_declRead b fns).append (effSs_declRead h fns)).append (effSs_declRead o fns)).append (effSs_declRead f fns)
+  | .handler _ ty _ body, fns => by simp only [effS]; exact ((DeclRead.ofEs ..).append (effSs_declRead body fns)).exp
+  | .assert_ _ t m, fns => by simp only [effS]; exact ((DeclRead.ofE ..).append (DeclRead.ofEs ..)).exp
+  | .import_ _ names, fns => by simp only [effS]; exact ⟨fun q hq => by simp [aliasEff, Eff.exported] at hq⟩
+  | .importFrom _ _ names _, fns => by simp only [effS]; exact ⟨fun q hq => by simp [aliasEff, Eff.exported] at hq⟩
+  | .global _ names, fns => by simp only [effS]; exact ⟨fun q hq => by simpa [globalEff, Eff.exported] using hq⟩
+  | .nonlocal _ names, fns => by simp only [effS]; exact ⟨fun q hq => by simpa [nonlocalEff, Eff.exported] using hq⟩
+  | .expr _ v, fns => by simp only [effS]; exact (DeclRead.ofE ..).exp
+  | .pass _, _ => by simp only [effS]; exact DeclRead.empty
+  | .break_ _, _ => by simp only [effS]; exact DeclRead.empty
+  | .continue_ _, _ => by simp only [effS]; exact DeclRead.empty
+  | .other _ _ es bs, fns => by simp only [effS]; exact (DeclRead.ofEs ..).append (effSs_declRead bs fns)
+theorem effSs_declRead : (ss : List Stmt) → (fns : List FnCtx) → DeclRead (effSs fns ss)
+  | [], _ => by simp only [effSs]; exact DeclRead.empty
+  | s :: rest, fns => by simp only [effSs]; exact (effS_declRead s fns).append (effSs_declRead rest fns)
+end
 
 theorem declBelowBs_append (g : Bool) (enc : List String) (a b : List Block) :
     declBelowBs g enc (a ++ b) = declBelowBs g enc a ++ declBelowBs g enc b := by
@@ -75,21 +145,20 @@ structure Hyp (Dom Denc Lenc : List String) (a : Acc) : Prop where
   lenc : ∀ x ∈ Lenc, x ∈ Dom
   denc : ∀ x ∈ Denc, x ∈ Dom
   noG : declBelowBs true Denc a.children = []
-  noN : declBelowBs false Denc a.children = []
   noL : leaksBs Lenc a.children = []
   noS : shadowBs a.children = []
 
 theorem Hyp.ofS {Dom Denc Lenc : List String} {a b : Acc} {bs ls gs ns : List String}
     (h : Hyp Dom Denc Lenc b) (hc : CollectsS a b bs ls gs ns) : Hyp Dom Denc Lenc a := by
   obtain ⟨new, hnew, -⟩ := hc.children
-  have hG := h.noG; have hN := h.noN; have hL := h.noL; have hS := h.noS
-  rw [hnew] at hG hN hL hS
-  rw [declBelowBs_append] at hG hN
+  have hG := h.noG; have hL := h.noL; have hS := h.noS
+  rw [hnew] at hG hL hS
+  rw [declBelowBs_append] at hG
   rw [leaksBs_append] at hL
   rw [shadowBs_append] at hS
-  simp only [List.append_eq_nil_iff] at hG hN hL hS
+  simp only [List.append_eq_nil_iff] at hG hL hS
   exact ⟨fun x hx => h.binds x ((hc.binds x).mpr (Or.inr hx)), fun x hx => h.globals x ((hc.globals x).mpr (Or.inr hx)),
-    fun x hx => h.nonlocals x ((hc.nonlocals x).mpr (Or.inr hx)), h.lenc, h.denc, hG.1, hN.1, hL.1, hS.1⟩
+    fun x hx => h.nonlocals x ((hc.nonlocals x).mpr (Or.inr hx)), h.lenc, h.denc, hG.1, hL.1, hS.1⟩
 
 theorem Hyp.ofE {Dom Denc Lenc : List String} {a b : Acc} {bs ls : List String}
     (h : Hyp Dom Denc Lenc b) (hc : CollectsE a b bs ls) : Hyp Dom Denc Lenc a := h.ofS hc.toS
@@ -107,45 +176,53 @@ theorem trackEff_read_sym (q? : Option QN) (c : Ctx) (cw aug anno : Bool) (x : S
 
 
 theorem Hyp.child {Dom Denc Lenc : List String} {a1 : Acc} {blk : Block} (h : Hyp Dom Denc Lenc (a1.child blk)) :
-    Hyp Dom Denc Lenc a1 ∧ declBelowB true Denc blk = [] ∧ declBelowB false Denc blk = [] ∧
+    Hyp Dom Denc Lenc a1 ∧ declBelowB true Denc blk = [] ∧
       leaksB Lenc blk = [] ∧ shadowB blk = [] := by
-  have hG := h.noG; have hN := h.noN; have hL := h.noL; have hS := h.noS
-  simp only [Acc.child] at hG hN hL hS
-  rw [declBelowBs_append] at hG hN
+  have hG := h.noG; have hL := h.noL; have hS := h.noS
+  simp only [Acc.child] at hG hL hS
+  rw [declBelowBs_append] at hG
   rw [leaksBs_append] at hL
   rw [shadowBs_append] at hS
-  simp only [List.append_eq_nil_iff, declBelowBs, leaksBs, shadowBs, and_true] at hG hN hL hS
-  exact ⟨⟨h.binds, h.globals, h.nonlocals, h.lenc, h.denc, hG.1, hN.1, hL.1, hS.1⟩, hG.2, hN.2, hL.2, hS.2⟩
+  simp only [List.append_eq_nil_iff, declBelowBs, leaksBs, shadowBs, and_true] at hG hL hS
+  exact ⟨⟨h.binds, h.globals, h.nonlocals, h.lenc, h.denc, hG.1, hL.1, hS.1⟩, hG.2, hL.2, hS.2⟩
 
 theorem accNeeds_child (a1 : Acc) (blk : Block) (x : String) :
     accNeeds (a1.child blk) x ↔ accNeeds a1 x ∨ x ∈ outerB blk := by
   simp only [accNeeds, Acc.child, outerBs_append, outerBs, List.mem_append, List.append_nil]
   grind
 
-/-- A def/lambda block: what the analysis exports from its scope (`read − bound`) against `outerB`. -/
+/-- A def/lambda block: what the analysis exports from its scope (`read − (bound − nonlocals − globals)`) against
+    `outerB`. -/
 theorem fun_block_rel (i : Nat) (kind : BlockKind) (name : String) (hk : kind.functionLike = true)
     (ps L : List String) (inner : Acc) (dI I : Eff)
     (hp : inner.params = ps) (hwal : inner.walrus = [])
     (hread : ∀ x, QN.sym x ∈ I.read ↔ QN.sym x ∈ dI.read)
     (hbound : ∀ x, QN.sym x ∈ I.bound ↔ x ∈ ps ∨ x ∈ inner.binds ∨ x ∈ inner.nonlocals ∨ x ∈ L)
+    (hnl : ∀ x, QN.sym x ∈ I.nonlocals ↔ x ∈ inner.nonlocals)
+    (hgl : ∀ x, QN.sym x ∈ I.globals ↔ x ∈ inner.globals)
+    (hdr : ∀ x, x ∈ inner.nonlocals → QN.sym x ∈ I.read)
     (hL : ∀ x ∈ L, x ∈ ps ++ inner.binds ++ inner.globals ++ inner.nonlocals)
     (hRR : RR (ps ++ inner.binds ++ inner.globals ++ inner.nonlocals) dI { params := ps } inner) :
-    ∀ x, x ∉ inner.globals → x ∉ inner.nonlocals →
-      (QN.sym x ∈ I.read.diff I.bound ↔ x ∈ outerB (inner.toBlock i kind name)) := by
-  intro x hg hn
+    ∀ x, x ∉ inner.globals →
+      (QN.sym x ∈ I.read.diff ((I.bound.diff I.nonlocals).diff I.globals) ↔ x ∈ outerB (inner.toBlock i kind name)) := by
+  intro x hg
   have hLx := hL x
   simp only [List.mem_append] at hLx
-  simp only [QSet.mem_diff, hread, hbound, Acc.toBlock, outerB, hk, ↓reduceIte, hp, hwal, List.mem_append, List.mem_filter,
-    List.append_nil]
-  by_cases hl : x ∈ ps ∨ x ∈ inner.binds
-  · simp [hg, hn]
-    grind
-  · have hD : x ∉ ps ++ inner.binds ++ inner.globals ++ inner.nonlocals := by simp only [List.mem_append]; grind
-    have h := hRR x hD
-    simp only [accNeeds, List.not_mem_nil, outerBs, or_false] at h
-    simp [hg, hn]
-    grind
-
+  by_cases hn : x ∈ inner.nonlocals
+  · have h1 := hdr x hn
+    simp only [QSet.mem_diff, hbound, hnl, hgl, Acc.toBlock, outerB, hk, ↓reduceIte, hp, hwal, List.mem_append, List.mem_filter,
+      List.append_nil]
+    simp [hg, hn, h1]
+  · simp only [QSet.mem_diff, hread, hbound, hnl, hgl, Acc.toBlock, outerB, hk, ↓reduceIte, hp, hwal, List.mem_append, List.mem_filter,
+      List.append_nil]
+    by_cases hl : x ∈ ps ∨ x ∈ inner.binds
+    · simp [hg, hn]
+      grind
+    · have hD : x ∉ ps ++ inner.binds ++ inner.globals ++ inner.nonlocals := by simp only [List.mem_append]; grind
+      have h := hRR x hD
+      simp only [accNeeds, List.not_mem_nil, outerBs, or_false] at h
+      simp [hg, hn]
+      grind
 
 theorem trackEff_rr_composite {Dom : List String} (q? : Option QN) (c : Ctx) (cw aug anno : Bool) (a : Acc)
     (hq : ∀ x, q? ≠ some (.sym x)) : RR Dom (trackEff q? c cw aug anno) a a := by
@@ -239,7 +316,7 @@ theorem readRelE : (e : Expr) → FragE e = true → (fns : List FnCtx) → (aug
         obtain ⟨⟨⟨⟨⟨⟨⟨hpo, har⟩, hva⟩, hko⟩, hkw⟩, hkd⟩, hdf⟩, hbody⟩ := hf
         simp only [collectE] at H ⊢
         simp only [effE]
-        obtain ⟨H1, hG, hN, hL, hS⟩ := H.child
+        obtain ⟨H1, hG, hL, hS⟩ := H.child
         have Hdf := H1.ofE (collectEs_spec kd hkd _)
         have R1 := (readRelEs df hdf (.lam i :: fns) aug anno Dom Denc Lenc a Hdf).trans
           (readRelEs kd hkd (.lam i :: fns) aug anno Dom Denc Lenc _ H1)
@@ -250,7 +327,7 @@ theorem readRelE : (e : Expr) → FragE e = true → (fns : List FnCtx) → (aug
         generalize hin : collectE false body { params := (po ++ ar ++ ko ++ va ++ kw).filterMap paramName } = inner at *
         simp only [Acc.toBlock, declBelowB, leaksB, shadowB, List.append_eq_nil_iff, List.filter_eq_nil_iff,
           BlockKind.isComp, beq_self_eq_true, Bool.or_true, ↓reduceIte, Bool.false_eq_true, reduceCtorEq,
-          decide_false, List.nil_append] at hG hN hL hS
+          decide_false, List.nil_append] at hG hL hS
         have hg0 : inner.globals = [] := hC.globals
         have hn0 : inner.nonlocals = [] := hC.nonlocals
         have hbI : ∀ x, x ∈ inner.binds ↔ x ∈ ownBindsE body := by intro x; rw [hC.binds]; simp
@@ -258,7 +335,7 @@ theorem readRelE : (e : Expr) → FragE e = true → (fns : List FnCtx) → (aug
             (inner.params ++ inner.binds ++ inner.globals ++ inner.nonlocals)
             (inner.params ++ inner.binds ++ inner.globals ++ inner.nonlocals) inner :=
           ⟨fun x hx => by simp [hx], fun x hx => by simp [hx], fun x hx => by simp [hx], fun x hx => hx, fun x hx => hx,
-            hG.2, hN.2, hL.2, hS.2⟩
+            hG.2, hL.2, hS.2⟩
         have RI := readRelE body hbody (.lam i :: fns) aug anno _ _ _ { params := (po ++ ar ++ ko ++ va ++ kw).filterMap paramName }
           (by rw [hin]; exact HI)
         rw [hin] at RI
@@ -276,6 +353,9 @@ theorem readRelE : (e : Expr) → FragE e = true → (fns : List FnCtx) → (aug
             rw [hC.params, mem_specParams_iff]
             simp only [List.mem_append] at this
             grind)
+          (by intro x; simp [hn0])
+          (by intro x; simp [hg0])
+          (by intro x hx; rw [hn0] at hx; simp at hx)
           (by
             intro x hx
             by_cases hd : x ∈ inner.params ++ inner.binds ++ inner.globals ++ inner.nonlocals
@@ -290,7 +370,7 @@ theorem readRelE : (e : Expr) → FragE e = true → (fns : List FnCtx) → (aug
             ((collectEs false kd (collectEs false df a)).child (inner.toBlock i .lambda "lambda")) := by
           intro x hx
           rw [accNeeds_child]
-          have := hrel x (by rw [hg0]; simp) (by rw [hn0]; simp)
+          have := hrel x (by rw [hg0]; simp)
           simp only [Eff.exported_true_read]
           grind
         exact (R1.trans Rc).congr (by intro x; simp; grind)
@@ -347,35 +427,39 @@ theorem foldl_bind_needs (l : List String) (a : Acc) (x : String) : accNeeds (l.
 theorem RR.bind (Dom : List String) (a : Acc) (n : String) : RR Dom {} a (a.bind n) := by
   intro x _; simp [accNeeds, Acc.bind]
 
-/-- A class block: the reads of its body that the class scope does not bind, against `outerB`. -/
+/-- A class block: the reads of its body that the class scope passes on, against `outerB`. -/
 theorem class_block_rel (i : Nat) (name : String) (inner : Acc) (dB : Eff) (Dom L : List String)
     (hp : inner.params = []) (hwal : inner.walrus = [])
-    (hg : ∀ x ∈ inner.globals, x ∈ Dom) (hn : ∀ x ∈ inner.nonlocals, x ∈ Dom)
+    (hg : ∀ x ∈ inner.globals, x ∈ Dom)
     (hbound : ∀ x, QN.sym x ∈ dB.bound ↔ x ∈ inner.binds ∨ x ∈ inner.nonlocals ∨ x ∈ L)
+    (hdr : ∀ x, x ∈ inner.nonlocals → QN.sym x ∈ dB.read)
     (hL : ∀ x ∈ L, x ∈ inner.params ++ inner.binds ++ inner.globals ++ inner.nonlocals)
     (hS : (inner.binds ++ inner.nonlocals).filter (fun n => (needsBs inner.children).contains n) = [])
-    (hRR : RR (Dom ++ inner.binds) dB {} inner) :
-    ∀ x, x ∉ Dom → ((QN.sym x ∈ dB.read ∧ QN.sym x ∉ dB.bound) ↔ x ∈ outerB (inner.toBlock i .class_ name)) := by
+    (hRR : RR (Dom ++ inner.binds ++ inner.nonlocals) dB {} inner) :
+    ∀ x, x ∉ Dom → ((QN.sym x ∈ dB.read ∧ ¬ (QN.sym x ∈ dB.bound ∧ x ∉ inner.nonlocals)) ↔
+      x ∈ outerB (inner.toBlock i .class_ name)) := by
   intro x hx
   have hgx : x ∉ inner.globals := fun h => hx (hg x h)
-  have hnx : x ∉ inner.nonlocals := fun h => hx (hn x h)
   have hLx := hL x
   simp only [hp, List.nil_append, List.mem_append] at hLx
   simp only [hbound, Acc.toBlock, outerB, BlockKind.functionLike, Bool.false_eq_true, ↓reduceIte, hp, hwal, List.mem_append,
     List.mem_filter, List.append_nil]
-  by_cases hb : x ∈ inner.binds
-  · have hsh : x ∉ outerBs inner.children := by
-      intro h
-      have h2 := outerBs_sub_needsBs _ x h
-      have : x ∈ (inner.binds ++ inner.nonlocals).filter (fun n => (needsBs inner.children).contains n) := by
-        simp [hb, h2]
-      rw [hS] at this
-      simp at this
-    simp [hb, hgx, hnx, hsh]
-  · have hD : x ∉ Dom ++ inner.binds := by simp [hx, hb]
-    have h := hRR x hD
-    simp only [accNeeds, List.not_mem_nil, outerBs, or_false] at h
-    simp [hgx, hnx]
-    grind
+  by_cases hn : x ∈ inner.nonlocals
+  · have := hdr x hn
+    simp [hgx, hn, this]
+  · by_cases hb : x ∈ inner.binds
+    · have hsh : x ∉ outerBs inner.children := by
+        intro h
+        have h2 := outerBs_sub_needsBs _ x h
+        have : x ∈ (inner.binds ++ inner.nonlocals).filter (fun n => (needsBs inner.children).contains n) := by
+          simp [hb, h2]
+        rw [hS] at this
+        simp at this
+      simp [hb, hgx, hn, hsh]
+    · have hD : x ∉ Dom ++ inner.binds ++ inner.nonlocals := by simp [hx, hb, hn]
+      have h := hRR x hD
+      simp only [accNeeds, List.not_mem_nil, outerBs, or_false] at h
+      simp [hgx, hn]
+      grind
 
 end Malt.Analysis
